@@ -590,6 +590,8 @@ class Emit:
                 return "i128"
             if len(e[1]) == 2 and e[1][0] in INT_TYPES and n == "BITS":
                 return "u32"
+            if len(e[1]) == 2 and e[1][0] == "Self" and n in getattr(self, "self_consts", {}):
+                return self.self_consts[n][0]
             if n == "None":
                 return ("Option", hint[1] if isinstance(hint, tuple) else "?")
             if len(e[1]) == 1 and n in ("true", "false"):
@@ -622,6 +624,8 @@ class Emit:
                 return ("Option", rt)
             if m in ("unsigned_abs",):
                 return "u" + rt[1:]
+            if m == "leading_zeros":
+                return "u32"
             if m in ("is_negative", "is_positive"):
                 return "bool"
             if m == "divmod":
@@ -653,6 +657,8 @@ class Emit:
                 return hint
             if len(e[1]) == 2 and (e[1][0], n) in TRAIT_CALLS:
                 return "Decimal"
+            if n == "from_bits" and len(e[1]) == 2 and e[1][0] == "Self":
+                return "u64"
             if n == "try_from" and len(e[1]) == 2:
                 target = e[1][0] if e[1][0] != "Self" else self.self_ty
                 st = self.type_of(e[2][0])
@@ -734,6 +740,8 @@ class Emit:
                 return [], "Mode" + MODE_NAMES[n]
             if len(e[1]) == 2 and e[1][0] in INT_TYPES and n == "BITS":
                 return [], str(bits(e[1][0]))
+            if len(e[1]) == 2 and e[1][0] == "Self" and n in getattr(self, "self_consts", {}):
+                return [], str(self.self_consts[n][1])
             if e[1] == ["i128", "MAX"]:
                 return [], "I128_MAX"
             if e[1] == ["i128", "MIN"]:
@@ -759,6 +767,8 @@ class Emit:
             dst = e[2]
             if src_t == dst:
                 return ls, x
+            if src_t == "bool":
+                return ls, f"(if ({x}) = true then 1 else 0)"
             # widening unsigned → unsigned, or any value known to fit keeps its value; we always emit the wrap
             if signed(dst) and not signed(src_t):
                 return ls, f"(IntTy.{dst}.cast ((({x}) : Nat) : Int))"
@@ -993,6 +1003,11 @@ class Emit:
             return ls, f"(compare ({xr}) ({xs[0]}))"
         if m == "signum" and signed(t):
             return ls, f"(Int.sign ({xr}))"
+        if m == "leading_zeros" and isinstance(t, str) and t in INT_TYPES and not signed(t):
+            return ls, f"(leadingZeros {bits(t)} ({xr}))"
+        if m == "pow" and isinstance(t, str) and t in INT_TYPES and not signed(t):
+            v = self.fresh()
+            return ls + [f"let {v} ← {self.plain(t, f'(({xr} : Nat) : Int) ^ ({xs[0]})')}"], v
         if m == "partial_cmp" and isinstance(t, str) and t in INT_TYPES:
             return ls, f"(some (compare ({xr}) ({xs[0]})))"
         if isinstance(t, str) and t in FLOAT_BITS:
@@ -1042,6 +1057,10 @@ class Emit:
         if n == "Some":
             ls, x = self.ex(args[0], hint[1] if isinstance(hint, tuple) else None)
             return ls, f"(some {x})"
+        if n == "from_bits" and len(path) == 2 and path[0] == "Self":
+            ls, x = self.ex(args[0], "u64")
+            wb = getattr(self, "self_consts", {}).get("__from_bits_width__")
+            return ls, (f"(Rt.wrapU {wb[1]} ({x}))" if wb else x)
         if n == "try_from" and len(path) == 2 and (path[0] in INT_TYPES or path[0] == "Self"):
             target = path[0] if path[0] != "Self" else self.self_ty
             st = self.type_of(args[0])
@@ -1507,7 +1526,7 @@ class Emit:
 
 # ----------------------------------------------------------------------------- driver
 GROUP_IMPORTS = {"KPow": ["Fpdec.Gen.Consts"], "KDivRounded": ["Fpdec.Gen.KRound", "Fpdec.Gen.KPow", "Fpdec.Model.Core"],
-                 "KDecDiv": ["Fpdec.Gen.KDivRounded"], "KDecMul": ["Fpdec.Gen.KDivRounded", "Fpdec.Model.Decimal"], "KNorm": [], "KIntOps": ["Fpdec.Gen.KDecDiv", "Fpdec.Gen.KNorm", "Fpdec.Gen.Consts", "Fpdec.Model.Decimal"], "KForward": ["Fpdec.Gen.KAddSub", "Fpdec.Gen.KDecOps"], "KIntConv": ["Fpdec.Gen.KPow", "Fpdec.Model.Decimal"], "KCmp": ["Fpdec.Gen.KPow", "Fpdec.Model.Decimal"], "KAddSub": ["Fpdec.Gen.KPow", "Fpdec.Model.Decimal"], "KDecUnops": ["Fpdec.Gen.KUnops", "Fpdec.Gen.KPow", "Fpdec.Model.Decimal"], "KDecOps": ["Fpdec.Gen.KDecDiv", "Fpdec.Gen.KDecMul", "Fpdec.Gen.KNorm", "Fpdec.Gen.Consts", "Fpdec.Model.Decimal"],
+                 "KDecDiv": ["Fpdec.Gen.KDivRounded"], "KDecMul": ["Fpdec.Gen.KDivRounded", "Fpdec.Model.Decimal"], "KNorm": [], "KIntoFloat": ["Fpdec.Gen.Consts", "Fpdec.Model.Decimal"], "KIntOps": ["Fpdec.Gen.KDecDiv", "Fpdec.Gen.KNorm", "Fpdec.Gen.Consts", "Fpdec.Model.Decimal"], "KForward": ["Fpdec.Gen.KAddSub", "Fpdec.Gen.KDecOps"], "KIntConv": ["Fpdec.Gen.KPow", "Fpdec.Model.Decimal"], "KCmp": ["Fpdec.Gen.KPow", "Fpdec.Model.Decimal"], "KAddSub": ["Fpdec.Gen.KPow", "Fpdec.Model.Decimal"], "KDecUnops": ["Fpdec.Gen.KUnops", "Fpdec.Gen.KPow", "Fpdec.Model.Decimal"], "KDecOps": ["Fpdec.Gen.KDecDiv", "Fpdec.Gen.KDecMul", "Fpdec.Gen.KNorm", "Fpdec.Gen.Consts", "Fpdec.Model.Decimal"],
                  "KDecRound": ["Fpdec.Gen.KDivRounded", "Fpdec.Model.Decimal"],
                  "KFloat": ["Fpdec.Gen.KNorm", "Fpdec.Gen.Consts", "Fpdec.Model.Core", "Fpdec.Model.Decimal"], "KRem": ["Fpdec.Gen.KPow"], "KDecRem": ["Fpdec.Gen.KRem", "Fpdec.Model.Decimal"],
                  "KWideDiv": ["Fpdec.Gen.KWide", "Fpdec.Gen.KPow", "Fpdec.Gen.Consts", "Fpdec.Model.Core"]}
@@ -1613,6 +1632,12 @@ KERNELS = [
      {"as": "int_div_rounded_decimal", "macro": ("impl_div_rounded_decimal_and_int", 1, None, {"$t": "i64"}), "occ": 4, "ret": "Decimal"}),
     ("KIntOps", "src/binops/div_rounded.rs", "div_rounded", "i64",
      {"as": "int_div_rounded_int", "macro": ("impl_div_rounded_int_and_int", 1, None, {"$t": "i64"}), "occ": 0, "ret": "Decimal"}),
+    ("KIntoFloat", "src/into_float.rs", "n_signif_bits", None),
+    ("KIntoFloat", "src/into_float.rs", "from_decimal", "u64",
+     {"as": "f32_from_decimal", "ret": "u64",
+      "self_consts": {"FRACTION_BITS": ("u32", 23), "EXP_BIAS": ("i32", 127), "BITS": ("u32", 32), "__from_bits_width__": ("u32", 32)}}),
+    ("KIntoFloat", "src/into_float.rs", "from_decimal", "u64",
+     {"as": "f64_from_decimal", "ret": "u64", "self_consts": {"FRACTION_BITS": ("u32", 52), "EXP_BIAS": ("i32", 1023), "BITS": ("u32", 64)}}),
     ("KForward", "src/binops/mod.rs", "$method", "Decimal",
      {"as": "ref_add_val", "macro": ("forward_ref_binop", 0, None, {"$imp": "Add", "$method": "add"}), "occ": 0, "ret": "Decimal"}),
     ("KForward", "src/binops/mod.rs", "$method", "Decimal",
@@ -1658,7 +1683,8 @@ GLOBAL_CONSTS = {
     "src/from_float.rs": {"MAGN_I128_MAX": ("u8", None, "FROM_FLT_MAGN_I128_MAX")},
 }
 # constant tables (element type, Lean name — generated by tools/fpextract.py from the same source)
-ARRAYS = {"POWERS_OF_10": ("i128", "Gen.POWERS_OF_10"), "IDX_MAP": ("u8", "Gen.MSB_IDX_MAP")}
+ARRAYS = {"POWERS_OF_10": ("i128", "Gen.POWERS_OF_10"), "IDX_MAP": ("u8", "Gen.MSB_IDX_MAP"),
+          "MASK_EXTRA_BITS": ("u128", "Gen.FLT_MASK_EXTRA_BITS")}
 TM_NEEDED = {}
 
 
@@ -1745,6 +1771,7 @@ def translate(repo):
                     if ret == "()":
                         kfin = (lambda i, mp=mp: "  " * i + "pure ((" + ", ".join(mp) + "))\n")
                 em = Emit(name, params, eff_ret, sigs, {**GLOBAL_CONSTS["*"], **GLOBAL_CONSTS.get(f, {})}, selfty)
+                em.self_consts = opts.get("self_consts", {})
                 em.decl_ret = ret
                 term = em.block_term(body, 1, kfin)
                 ret = eff_ret
